@@ -656,6 +656,56 @@ def rule_strip_what_was_tested(ctx: Ctx) -> RuleResult:
     return rr
 
 
+def rule_rows_used_mark(ctx: Ctx) -> RuleResult:
+    """Partial-screen mode (no alternate buffer): rows below the lowest row painted so far are left off the display
+    while they are blank.  `self._rows_used` is that lowest painted row - it is stored as `self._rows_used = y + k`
+    for the row index y just painted.  A blank row may be skipped (`continue`: recorded in the new screen buffer but
+    not written) only if it lies *beyond* the painted rows: the tests on the way to the `continue` entail
+    y - self._rows_used + k > 0.  With `>=` for k = 0 the lowest painted row itself is skipped when it turns blank:
+    the buffer says blank, the terminal keeps the old text for good (seed C04-r8b)."""
+    from ..rules.runpos import _atoms, _entails_positive
+    from ..rules.util import lin_str, linear
+
+    p = ctx.p
+    rr = RuleResult("GUARD", "C04.20", "a blank row is left off the partial display only where it is shown to lie beyond the lowest row painted so far", floor=1)
+    fi = p.func("urwid.display._raw_display_base.Screen.draw_screen")
+    cfg = cfg_of(fi)
+    stores = [n for n in cfg.nodes if isinstance(n.ast, ast.Assign) and any(isinstance(t, ast.Attribute) and t.attr == "_rows_used" for t in n.ast.targets)]
+    if not stores:
+        raise AnalysisError("draw_screen: no store to self._rows_used found")
+    for st in stores:
+        L = linear(st.ast.value)
+        if L is None or len([k for k in L if k]) != 1:
+            continue
+        y = next(k for k in L if k)
+        k = L.get("", 0)
+        mark = ast.unparse(st.ast.targets[0])
+        # the skips: `continue` statements control-dependent on a test that reads the mark
+        for cn in cfg.nodes:
+            if not isinstance(cn.ast, ast.Continue):
+                continue
+            dom = []
+            reads_mark = False
+            for t in cfg.nodes:
+                if t.kind != "test":
+                    continue
+                for lab, truth in (("T", True), ("F", False)):
+                    if cn not in ExcEngine._reach_without_edge(cfg, t, lab):
+                        dom += _atoms(t.ast, truth)
+                        if "_rows_used" in ast.unparse(t.ast):
+                            reads_mark = True
+            if not reads_mark:
+                continue
+            goal = {y: 1, mark: -1}
+            if k:
+                goal[""] = k
+            ok = _entails_positive(goal, dom)
+            rr.inst(f"skip under {mark}", True, {"mark_store": norm(st.ast, 40), "needs": f"{lin_str(goal)} > 0", "known": [f"{lin_str(e)} {o} 0" for e, o in dom if mark in e], "shown": ok})
+            if not ok:
+                rr.add(finding("GUARD", fi, cn.ast, f"a blank row is skipped (`continue`) although the tests on the way do not show `{lin_str(goal)} > 0`: `{norm(st.ast, 40)}` makes {mark} the index of the lowest painted row, so a row equal to it is on the display - when it turns blank it is recorded as blank but never erased on the terminal", construct="blank row skipped inside the painted rows"))
+    return rr
+
+
 def rule_one_utf8_spelling(ctx: Ctx) -> RuleResult:
     """draw_screen() decides 'no SI / SO / IBM-PC switching in UTF-8' by comparing util.get_encoding() with the
     literal 'utf-8'.  set_encoding() accepts several spellings for that family (`encoding in {...}` on the arm that
@@ -710,7 +760,7 @@ def run(ctx: Ctx):
     r8.clause = "C04.8"
     r9 = accum.run_accum(ctx.p, "C04.9", "C04", floor=1)
     r11 = loopfresh.run_loopfresh(ctx.p, "C04.11", "C04", floor=3)
-    return [rule_triple(ctx), rule_last_row_triple(ctx), rule_cursor(ctx), rule_repaint(ctx), rule_charset_first(ctx), rule_html(ctx), rule_html_cursor_columns(ctx), r6, r7, r8, r9, r11, rule_erase_shortcut(ctx), rule_rendition_model(ctx), rule_last_row_neighbour(ctx), rule_cell_components(ctx), rule_cell_text_filtered(ctx), rule_font_off_at_end(ctx), rule_strip_what_was_tested(ctx), rule_one_utf8_spelling(ctx)]
+    return [rule_triple(ctx), rule_last_row_triple(ctx), rule_cursor(ctx), rule_repaint(ctx), rule_charset_first(ctx), rule_html(ctx), rule_html_cursor_columns(ctx), r6, r7, r8, r9, r11, rule_erase_shortcut(ctx), rule_rendition_model(ctx), rule_last_row_neighbour(ctx), rule_cell_components(ctx), rule_cell_text_filtered(ctx), rule_font_off_at_end(ctx), rule_strip_what_was_tested(ctx), rule_one_utf8_spelling(ctx), rule_rows_used_mark(ctx)]
 
 
 _RW = "urwid/display/_raw_display_base.py"
